@@ -144,6 +144,8 @@ def build_stats_labels(results, by_labels=('day',)):
             labels['day'] = day
         if len(item) > 2 and item[2] is not None:
             labels['meal'] = item[2]
+        if len(item) > 3 and item[3] is not None:
+            labels['index'] = item[3]
         trs.append((f'task{k}', {'status': TaskStatus.DONE, 'result': [simple_result(verdict, f'test{k}', labels=labels)]}))
     test = TestStatsTestsByLabels(name='t_stats_labels', description='by labels', task_results=trs, by_labels=tuple(by_labels))
     return test, test.evaluate()
